@@ -99,8 +99,11 @@ RULES["C10"] = ("timer benches with periodic actions (periods down to 1 ns, comm
 sim_plan("C10", ["timer"])
 LEVEL["C16"] = "exploration"
 RULES["C16"] = ("hierarchical DAG benches (sub-models to depth 3) whose init scripts send events/queries to not-yet-initialised models; exactly one init per model inside SimInit::init and before "
-                "its first handler; Context/BuildContext names equal the dotted path; early messages delivered (reference interpreter); non-trivial = bench with sub-models")
-sim_plan("C16", ["dag"], miri_parts=["dag"])
+                "its first handler; Context/BuildContext names equal the dotted path; early messages delivered (reference interpreter); part reports: a model that is a sub-model, owns sub-models (two levels) or sits in the "
+                "middle of a chain panics (in a handler / in init), sends to a dropped mailbox or deadlocks, on ST / MT2 / MT4 and through every kind of driver call: the model name in the error report must be its dotted path; "
+                "non-trivial = bench with sub-models / one report checked")
+sim_plan("C16", ["dag", "reports"], miri_parts=["dag"])
+PLAN["C16"]["thorough"].append(miri("reports", 1, 1, 3000))
 LEVEL["C18"] = "exploration"
 RULES["C18"] = ("timer benches with a recording scripted clock; sequence of Clock::synchronize times per call compared with the reference interpreter; each synchronize(t) stamped after all "
                 "handlers of earlier times and before any handler of t; initial synchronize before any init; part faults: scripted OutOfSync(lag) answers at random synchronisation indices x tolerances "
@@ -121,7 +124,7 @@ PLAN["C08"] = {"quick": [job("native", "grid", 16, 600), job("native", "threads"
                "min_evaluations": {"quick": 300, "thorough": 300}, "assumptions": COMMON_ASSUMPTIONS}
 
 LEVEL["C11"] = "fault_enumeration"
-RULES["C11"] = ("matrix: fault kind (panic with &str/String/custom payload at top level, in a sub-model, in init; NoRecipient from a model, a sub-model, an EventSource action; step timeout; "
+RULES["C11"] = ("matrix: fault kind (panic with &str/String/custom payload at top level, in a sub-model, in a model owning sub-models, in the middle of a chain, in init; NoRecipient from a model, a sub-model, an EventSource action; step timeout; "
                 "OutOfSync above tolerance; query-loop deadlock; orphan-mailbox message loss; non-fatal InvalidDeadline, BadQuery, scheduling errors) x trigger (process_event, step, step_until, process) "
                 "x scheduler queue empty/non-empty x every sequence of 1-3 further calls over {step, step_until, process_event, process_query, process} x {ST, MT4}; the quick tier runs all length-1 "
                 "suffixes and a seeded 1/8 sample of longer ones, the thorough tier the complete matrix; each cell is one distinct case")
